@@ -437,6 +437,12 @@ def oracle_c07(rows):
                     fails.append(_fail(r, idx, "foreign %s decreased spendable %d -> %d%s"
                                        % (k, sp0, sp1, " [late-lock]" if late else "")))
                 if k == "receive" and s["rc"] == [0]:
+                    dest = s["op"]["dest"] if s["op"].get("dest") is not None else prev["active"]
+                    if any(t["slate"] == s["op"]["slate"] and t["type"] == 1 and t["parent"] == dest for t in prev["txs"]):
+                        fails.append(_fail(r, idx, "a second delivery of slate %s to account %s was accepted (its received "
+                                                   "entry exists%s)" % (s["op"]["slate"], dest,
+                                           ", confirmed" if any(t["slate"] == s["op"]["slate"] and t["type"] == 1 and
+                                                                t["parent"] == dest and t["confirmed"] for t in prev["txs"]) else "")))
                     added = [o for key, o in no.items() if key not in po]
                     if len(added) != 1 or added[0]["status"] != 0 or int(added[0]["value"]) != int(s["op"]["amount"]):
                         fails.append(_fail(r, idx, "receive did not add exactly one Unconfirmed output of the slate amount"))
